@@ -14,6 +14,7 @@ from hypothesis import strategies as st
 
 from vf import canon as C
 from vf import run as R
+from vf.gen import mdibprog as MP
 
 P = 'C11'
 META = {
@@ -245,17 +246,100 @@ def shard_table(ctx, n):
 
 def shard_mdib(ctx, n, max_ops):
     from vf.props import c01
-    c01.shard_programs(ctx, 'mdib_two_mds.xml', n, max_ops, prop=P, index_bias=True)
+    c01.shard_programs(ctx, 'mdib_two_mds_limit.xml', n, max_ops, prop=P, index_bias=True)
+
+
+# ---- consumer side: description modification reports whose parts carry several sibling descriptors
+MSG = 'http://standards.ieee.org/downloads/11073/11073-10207-2017/message'
+
+
+def regroup_report(xml: bytes):
+    """Merge neighbouring report parts with equal ModificationType, ParentDescriptor and SourceMds into one part.
+
+    The provider of this library writes one descriptor per part; BICEPS allows siblings to share a part, and other
+    providers do that.  Returns (bytes, number of merges).
+    """
+    from lxml import etree
+    root = etree.fromstring(xml)
+    report = root.find(f'.//{{{MSG}}}DescriptionModificationReport')
+    if report is None:
+        return xml, 0
+    merges = 0
+    prev = None
+    for part in list(report.findall(f'{{{MSG}}}ReportPart')):
+        src = part.find(f'{{{MSG}}}SourceMds')
+        key = (part.get('ModificationType', 'Upt'), part.get('ParentDescriptor'), src.text if src is not None else None)
+        if prev is not None and prev[0] == key:
+            target = prev[1]
+            first_state = target.find(f'{{{MSG}}}State')
+            for d in part.findall(f'{{{MSG}}}Descriptor'):
+                if first_state is not None:
+                    first_state.addprevious(d)
+                else:
+                    target.append(d)
+            for st_ in part.findall(f'{{{MSG}}}State'):
+                target.append(st_)
+            report.remove(part)
+            merges += 1
+        else:
+            prev = (key, part)
+    return etree.tostring(root), merges
+
+
+def st_regroup_program(inv):
+    from vf.props import c01
+    biased = c01.st_index_biased_ops(inv)
+    multi = st.lists(biased, min_size=2, max_size=4, unique_by=lambda op: op[1]).map(
+        lambda ops: ['multi', [[o[0], o[1], o[2], 'classic'] for o in ops]])
+    other = MP.st_op(inv, descriptor_ops=True, context_ops=False, multi=True, kw_hold=False, aborts=False)
+    return st.lists(st.one_of(multi, multi, other), min_size=1, max_size=8)
+
+
+def regroup_case(ctx, prog):
+    from vf import loopback as L
+    from vf.props import c01
+    r = c01.PairRunner('mdib_two_mds_limit.xml', prop=P, check_notifications=False)
+    stats = {'merges': 0}
+
+    def interceptor(entry):
+        if entry.action is not None and entry.action.endswith('/DescriptionModificationReport'):
+            new, n = regroup_report(entry.request)
+            if n:
+                stats['merges'] += n
+                return ('rewrite', new)
+        return None
+    findings = []
+    try:
+        L.NET.interceptor = interceptor
+        for op in prog:
+            f, _info = r.step(op)
+            findings += [(s.replace(f'{P}/', f'{P}/regrouped-report/'), d) for s, d in f]
+            if findings:
+                break
+    finally:
+        L.NET.interceptor = None
+        r.close()
+    ctx.case(prog, stats['merges'] > 0, 'regroup', classes=('merged-parts',) if stats['merges'] else ())
+    return findings
+
+
+def shard_regroup(ctx, n):
+    inv = MP.inventory('mdib_two_mds_limit.xml')
+    R.hyp_campaign(ctx, 'regroup', st_regroup_program(inv), lambda prog: regroup_case(ctx, prog), n,
+                   shrink_s=30 if ctx.tier == 'quick' else 200)
 
 
 def run(ctx):
     quick = ctx.tier == 'quick'
     R.run_shards(ctx, __name__, 'shard_table', [(600 if quick else 20000,)] * (R.NPROC // 2))
     R.run_shards(ctx, __name__, 'shard_mdib', [(6 if quick else 150, 14 if quick else 30)] * (R.NPROC // 2))
+    R.run_shards(ctx, __name__, 'shard_regroup', [(5 if quick else 150,)] * (R.NPROC // 2))
 
 
 def replay(part, case):
     if part == 'table':
         return run_ops([list(o) for o in case])[0]
+    if part == 'regroup':
+        return regroup_case(R.Ctx(P, 'quick', 0, {}), case)
     from vf.props import c01
     return c01.replay_for(P, case)
